@@ -31,9 +31,6 @@ fn classify(_s: &Scene, _i: usize, _v: &StepViolation) -> Option<&'static str> {
 fn eval(scene: &Scene) -> Result<SceneStats, Violation> {
     // (i) step oracle
     let st = run_scene("C06", scene, owns, &classify)?;
-    if st.foreign {
-        return Ok(st);
-    }
     // (ii) M-LAYER end-to-end
     let got = match render(scene) {
         Ok(g) => g,
